@@ -47,6 +47,13 @@ def make_source(kind: str, data: bytes, schedule, default, tmpdir: str | None = 
         return faultio.ScheduleRaw(data, schedule, default)
     if kind == "buffered":
         return io.BufferedReader(faultio.ScheduleRaw(data, schedule, default), buffer_size=16)
+    if kind == "seekable-buffered":
+        return io.BufferedReader(faultio.ScheduleRaw(data, schedule, default, seekable=True),
+                                 buffer_size=16)
+    if kind.startswith("gzip-members"):
+        k = int(kind.rsplit("-", 1)[1])  # first gzip member holds k bytes
+        blob = gzip.compress(data[:k]) + gzip.compress(data[k:])
+        return gzip.GzipFile(fileobj=io.BytesIO(blob), mode="rb")
     if kind == "bytesio":
         return io.BytesIO(data)
     if kind == "file":
@@ -60,19 +67,29 @@ def make_source(kind: str, data: bytes, schedule, default, tmpdir: str | None = 
     raise ValueError(kind)
 
 
+_REF: dict = {}
+
+
 def run_case(case: dict) -> str | None:
-    entries = {e["name"]: e for e in streams_for(case["corpus"])}
+    entries = streams_map(case["corpus"])
     entry = entries[case["stream"]]
     api, mode = case["api"], case["mode"]
-    want = reference(entry, api, mode)
-    with tempfile.TemporaryDirectory(prefix="c09_") as tmp:
+    key = (case["corpus"], case["stream"], api, mode)
+    if key not in _REF:
+        _REF[key] = reference(entry, api, mode)
+    want = _REF[key]
+    tmp = tempfile.TemporaryDirectory(prefix="c09_") if case["source"] == "file" else None
+    try:
         src = make_source(case["source"], entry["data"], case.get("schedule", ()),
-                          case.get("default"), tmp)
+                          case.get("default"), tmp.name if tmp else None)
         try:
             got = parse(entry, api, mode, src)
         finally:
             if hasattr(src, "close"):
                 src.close()
+    finally:
+        if tmp:
+            tmp.cleanup()
     if got != want:
         return (f"parse from {case['source']} source with read sizes "
                 f"{case.get('schedule')} (then {case.get('default') or 'full'}) gives "
@@ -108,13 +125,14 @@ def schedules(entry, api: str, mode: str, max_dev: int):
 
 def shard(job) -> dict:
     size, name, max_dev = job
-    entry = {e["name"]: e for e in streams_for(size)}[name]
+    entry = streams_map(size)[name]
     acc = pool.Acc()
     for api in ("generic", "rdflib"):
         if api == "rdflib" and not entry["rdf11"]:
             continue
         for mode in ("flat", "grouped"):
-            for source in ("bytesio", "file", "gzip"):
+            for source in ("bytesio", "file", "gzip", "gzip-members-1", "gzip-members-2",
+                           "gzip-members-3", "gzip-members-7"):
                 case = {"corpus": size, "stream": name, "api": api, "mode": mode,
                         "source": source}
                 acc.evals += 1
@@ -123,7 +141,7 @@ def shard(job) -> dict:
                     acc.violation({"source": source, "api": api, "mode": mode},
                                   f"{name} ({api} {mode}): {r}", case)
             for sched, default in schedules(entry, api, mode, max_dev):
-                for source in ("raw", "buffered"):
+                for source in ("raw", "buffered", "seekable-buffered"):
                     case = {"corpus": size, "stream": name, "api": api, "mode": mode,
                             "source": source, "schedule": list(sched), "default": default}
                     acc.evals += 1
@@ -168,6 +186,10 @@ def run(ctx) -> None:
     )
 
 
+import functools
+
+
+@functools.cache
 def streams_map(size: str) -> dict:
     return {e["name"]: e for e in streams_for(size)}
 
